@@ -170,6 +170,7 @@ struct DeLog {
 }
 
 struct ScriptDe {
+    human_readable: bool,
     n: usize,
     deliver: usize,
     upfront: Upfront,
@@ -248,6 +249,9 @@ impl<'de> SeqAccess<'de> for ScriptSeq {
 
 impl<'de> Deserializer<'de> for ScriptDe {
     type Error = E;
+    fn is_human_readable(&self) -> bool {
+        self.human_readable
+    }
     fn deserialize_any<V: Visitor<'de>>(self, _: V) -> Result<V::Value, E> {
         Err(E("only deserialize_tuple is scripted".into()))
     }
@@ -413,16 +417,29 @@ fn script_cases<N: ArrayLength>(st: &mut Stats) {
                 let mut errs: Vec<Option<usize>> = vec![None];
                 errs.extend((0..deliver.min(n + 1)).map(Some));
                 for err_at in errs {
+                  for route in 0..3usize {
+                    // route 0: Deserialize::deserialize (human-readable source); 1: the same from a
+                    // binary (non-human-readable) source; 2: Deserialize::deserialize_in_place
+                    let rname = ["deserialize", "deserialize(binary)", "deserialize_in_place"][route];
                     st.check_case(
                         "C17",
                         "scripted",
                         "DTok",
-                        || format!("C17 scripted DTok N={n} deliver={deliver} upfront={upfront:?} running={running:?} err_at={err_at:?}"),
+                        || format!("C17 scripted DTok N={n} deliver={deliver} upfront={upfront:?} running={running:?} err_at={err_at:?} route={rname}"),
                         deliver > 0,
                         || {
                             let log = Rc::new(RefCell::new(DeLog::default()));
-                            let de = ScriptDe { n, deliver, upfront, running, err_at, log: log.clone() };
-                            let r = GA::<DTok, N>::deserialize(de);
+                            let de = ScriptDe { human_readable: route != 1, n, deliver, upfront, running, err_at, log: log.clone() };
+                            let r = if route == 2 {
+                                // a fully initialised place, as serde hands to deserialize_in_place
+                                let mut place: GA<DTok, N> = GA::<DTok, N>::generate(|i| DTok { t: Tok::new(), v: 7000 + i as u64 });
+                                match <GA<DTok, N> as Deserialize>::deserialize_in_place(de, &mut place) {
+                                    Ok(()) => Ok(place),
+                                    Err(e) => Err(e),
+                                }
+                            } else {
+                                GA::<DTok, N>::deserialize(de)
+                            };
                             let l = log.borrow().clone();
                             // what the up-front hint announced
                             let announced: Option<usize> = match upfront {
@@ -476,6 +493,7 @@ fn script_cases<N: ArrayLength>(st: &mut Stats) {
                         st.count("c17.out_of_claim_cases", 1);
                     }
                     st.count("c17.scripted_cases", 1);
+                  }
                 }
             }
         }
